@@ -72,6 +72,7 @@ type RunResult struct {
 	Sim      *simrt.Sim
 	Fatal    string // engine panic / open failure: (kind: message)
 	FatalStk string
+	FatalInst int // instance number (1 = first Open) in which the fatal event happened
 	Probes   Probes
 	Images   []*CrashImage
 	WallNS   int64
@@ -123,6 +124,21 @@ type Runner struct {
 
 var errClosure = errors.New("closure failed on purpose")
 
+// updateRecovering is db.Update called by a client that survives a panic of its own closure: the panic
+// value (always errClosure here) becomes the returned error. Any other panic is not ours and goes on.
+func updateRecovering(db *originium.DB, fn func(*originium.Txn) error) (err error) {
+	defer func() {
+		if p := recover(); p != nil {
+			if e, ok := p.(error); ok && e == errClosure {
+				err = errClosure
+				return
+			}
+			panic(p)
+		}
+	}()
+	return db.Update(fn)
+}
+
 func errName(err error) string {
 	switch {
 	case err == nil:
@@ -169,6 +185,7 @@ func (r *Runner) fatal(kind string, v any, stk string) {
 	if r.res.Fatal == "" {
 		r.res.Fatal = fmt.Sprintf("%s: %v", kind, v)
 		r.res.FatalStk = stk
+		r.res.FatalInst = r.inst
 	}
 }
 
@@ -314,6 +331,10 @@ func (r *Runner) runTxn(client int, t *TxnProg) *TxnRec {
 			r.s.APIBegin("end")
 			rec.EndCall = r.s.Seq()
 			if t.End == "error" {
+				if t.Panic {
+					r.res.Probes["closure_panics"]++
+					panic(errClosure)
+				}
 				return errClosure
 			}
 			if t.Mode == "update" {
@@ -325,7 +346,7 @@ func (r *Runner) runTxn(client int, t *TxnProg) *TxnRec {
 		rec.BeginCall = r.s.Seq()
 		var err error
 		if t.Mode == "update" {
-			err = db.Update(fn)
+			err = updateRecovering(db, fn)
 		} else {
 			err = db.View(fn)
 		}
